@@ -32,6 +32,7 @@ fn check(id: &str, tier: Tier) -> i32 {
         "C11" => props::c11::check(tier),
         "C13" => props::c13::check(tier),
         "C14" => props::c14::check(tier),
+        "C15" => props::c15::check(tier),
         "C16" => props::c16::check(tier),
         "C17" => props::c17::check(tier),
         "C18" => props::c18::check(tier),
@@ -56,6 +57,7 @@ fn replay(id: &str, f: &Path) -> i32 {
         "C11" => props::c11::replay(f),
         "C13" => props::c13::replay(f),
         "C14" => props::c14::replay(f),
+        "C15" => props::c15::replay(f),
         "C16" => props::c16::replay(f),
         "C17" => props::c17::replay(f),
         "C18" => props::c18::replay(f),
